@@ -261,6 +261,22 @@ func (a *Analysis) CheckC08(rep *Report) {
 			}
 		}
 	}
+	// R5 (cont.): "the only permitted differences are those fields being replaced by their correct values": that the
+	// values a frame computes ARE the correct ones is C04's and C05's verdict – a frame that writes a length taken from
+	// a Size() method which disagrees with Encode re-encodes accepted bytes with a wrong length
+	for _, sub := range []struct {
+		id  string
+		run func(*Report)
+	}{{"C04", a.CheckC04}, {"C05", a.CheckC05}} {
+		scratch := NewReport(sub.id, "other", "quick", 0)
+		sub.run(scratch)
+		for _, v := range scratch.Violations {
+			rep.Ob("R5-computed-fields-verified-by-"+sub.id, v.Key, false, v.Pos, "a field the frame computes itself does not pass "+sub.id+", so re-encoding replaces it by something other than its correct value: "+v.Msg)
+		}
+		if len(scratch.Violations) == 0 {
+			rep.Ob("R5-computed-fields-verified-by-"+sub.id, "all-frames", true, "", "")
+		}
+	}
 	// R6: re-encoding the decoded value reproduces the bytes only if the dynamic part was decoded as the type it was
 	// encoded as (C12): a different type re-encodes a different layout
 	a.discriminatorPremise(rep, "R6-discriminators-verified-by-C12", "the discriminator does not build the pinned type: the dynamic part is decoded as another layout and re-encodes differently")
